@@ -16,6 +16,7 @@ type ctx struct {
 	o      Options
 	budget int
 	spent  bool
+	reach  map[string]bool
 }
 
 func newCtx(s *model.Schema, doc *nast.Document, o Options) *ctx {
@@ -23,7 +24,55 @@ func newCtx(s *model.Schema, doc *nast.Document, o Options) *ctx {
 	if b <= 0 {
 		b = 400000
 	}
-	return &ctx{s: s, doc: doc, o: o, budget: b}
+	return &ctx{s: s, doc: doc, o: o, budget: b, reach: Reachable(s)}
+}
+
+// Reachable lists the type names that belong to the schema the model
+// describes: everything reachable from the root operation types, the extra
+// types and the directive arguments through field types, argument types,
+// interfaces, union members and input fields, plus String and Boolean (the
+// introspection schema and @skip/@include use them). A type of the model
+// that nothing refers to is NOT part of the schema; a built-in scalar that
+// nothing refers to is not part of it either.
+func Reachable(s *model.Schema) map[string]bool {
+	seen := map[string]bool{"String": true, "Boolean": true}
+	var visit func(name string)
+	inputs := func(defs []*model.InputDef) {
+		for _, d := range defs {
+			visit(d.Type.Base())
+		}
+	}
+	visit = func(name string) {
+		if name == "" || seen[name] {
+			return
+		}
+		td := s.Type(name)
+		if td == nil {
+			return
+		}
+		seen[name] = true
+		for _, f := range td.Fields {
+			visit(f.Type.Base())
+			inputs(f.Args)
+		}
+		for _, i := range td.Interfaces {
+			visit(i)
+		}
+		for _, m := range td.Members {
+			visit(m)
+		}
+		inputs(td.InputFields)
+	}
+	visit(s.Query)
+	visit(s.Mutation)
+	visit(s.Subscription)
+	for _, n := range s.Extra {
+		visit(n)
+	}
+	for _, d := range s.Directives {
+		inputs(d.Args)
+	}
+	return seen
 }
 
 // ---- definitions of the document
@@ -120,14 +169,14 @@ func (c *ctx) fieldDef(parent, name string) *fdef {
 	return nil
 }
 
-// typeKnown: the name denotes a type of the schema.
-func (c *ctx) typeKnown(name string) bool { return c.s.Type(name) != nil }
+// typeKnown: the name denotes a type of the schema (see Reachable).
+func (c *ctx) typeKnown(name string) bool { return c.reach[name] && c.s.Type(name) != nil }
 
 // compositeOrUnknown maps a type name to the parent type of a selection set
 // applied to it: the name itself when it is an object, interface or union,
 // "" otherwise (unknown type, leaf type, input object, introspection type).
 func (c *ctx) composite(name string) string {
-	if name != "" && c.s.IsComposite(name) {
+	if name != "" && c.typeKnown(name) && c.s.IsComposite(name) {
 		return name
 	}
 	return ""
@@ -437,4 +486,39 @@ func (c *ctx) usages(op *nast.Operation) []usage {
 		c.walkSel(f.Sel, c.composite(cond), h)
 	}
 	return out
+}
+
+// valueText renders a value canonically WITHOUT touching the tree
+// (nast.PrintValue rewrites the spans of the nodes it prints).
+func valueText(n nast.Node) string {
+	switch v := n.(type) {
+	case *nast.Variable:
+		return "$" + v.Name.Value
+	case *nast.IntValue:
+		return v.Raw
+	case *nast.FloatValue:
+		return v.Raw
+	case *nast.StringValue:
+		return nast.QuoteString(v.Value)
+	case *nast.BooleanValue:
+		if v.Value {
+			return "true"
+		}
+		return "false"
+	case *nast.EnumValue:
+		return v.Value
+	case *nast.ListValue:
+		parts := make([]string, len(v.Items))
+		for i, it := range v.Items {
+			parts[i] = valueText(it)
+		}
+		return "[" + strings.Join(parts, ", ") + "]"
+	case *nast.ObjectValue:
+		parts := make([]string, len(v.Fields))
+		for i, f := range v.Fields {
+			parts[i] = f.Name.Value + ": " + valueText(f.Value)
+		}
+		return "{" + strings.Join(parts, ", ") + "}"
+	}
+	return "<nil>"
 }
